@@ -67,14 +67,61 @@ func genC14(t *rapid.T) C14Case {
 		}
 		return out, at + 3
 	}
+	// second placement: the prefix takes the place of a variable read anywhere in an expression (an
+	// until / while / if condition, a call argument, a for bound, a return value, a table field ...)
+	var reads []int
+	for i, tk := range toks {
+		if tk.Var != luagen.VarNone && tk.Var != i && !tk.Write && tk.SelfOf < 0 && tk.Text != "self" {
+			reads = append(reads, i)
+		}
+	}
+	replace := func(at int) ([]luagen.Tok, int) {
+		out := append([]luagen.Tok{}, toks...)
+		out[at].Text = c14Prefix
+		out[at].Var = luagen.VarNone
+		return out, at
+	}
 	var c C14Case
 	for try := 0; try < 12; try++ {
-		at := bounds[rapid.IntRange(0, len(bounds)-1).Draw(t, "plantAt")]
-		planted, prefTok := plant(at)
+		var planted []luagen.Tok
+		var prefTok, at int
+		inExpr := len(reads) > 0 && rapid.Bool().Draw(t, "inExpr")
+		if inExpr {
+			at = reads[rapid.IntRange(0, len(reads)-1).Draw(t, "readAt")]
+			planted, prefTok = replace(at)
+		} else {
+			at = bounds[rapid.IntRange(0, len(bounds)-1).Draw(t, "plantAt")]
+			planted, prefTok = plant(at)
+		}
 		src, offs := luagen.RenderSimple(planted)
 		res, _ := reflua.Analyze(src)
 		if res.Verdict != reflua.Valid {
 			continue
+		}
+		if inExpr {
+			c.WS = Workspace{}
+			for i := 0; i < n; i++ {
+				if i == fi {
+					c.WS.Files = append(c.WS.Files, WSFile{Path: wsFileNames[i], Text: src})
+				} else {
+					s, _ := luagen.RenderSimple(toksPerFile[i])
+					c.WS.Files = append(c.WS.Files, WSFile{Path: wsFileNames[i], Text: s})
+				}
+			}
+			c.File = fi
+			c.Cursor = offs[prefTok] + len(c14Prefix)
+			c.Prefix = c14Prefix
+			c.Place = "expr"
+			for k := at - 1; k >= 0; k-- {
+				if reflua.IsKeyword(toks[k].Text) {
+					c.Place = "expr-after-" + toks[k].Text
+					break
+				}
+				if toks[k].NL {
+					break
+				}
+			}
+			return c
 		}
 		c.WS = Workspace{}
 		for i := 0; i < n; i++ {
@@ -189,7 +236,7 @@ func checkC14(c C14Case, env *Env) *Violation {
 	for _, it := range cl.Items {
 		labels[it.Label] = true
 	}
-	where := fmt.Sprintf("%s:%d:%d (planted `local zq = %s` %s)", f.Path, line, ch, c.Prefix, c.Place)
+	where := fmt.Sprintf("%s:%d:%d (prefix %s planted %s)", f.Path, line, ch, c.Prefix, c.Place)
 	names := func(m map[string]bool) []string {
 		var s []string
 		for n := range m {
